@@ -685,6 +685,14 @@ def check_sniffers(which=None):
                 return {"target": name, "inputs": {"file": what, "head": list(data[:32]), "len": len(data)}, "expected": list(want), "observed": list(got)}
     # the three OOXML copies agree (bounded differential run, also on malformed inputs)
     if not which or which == "agree":
+        rnd2 = random.Random(23)
+        toks = [b"\xff", b"\xff\xc0", b"\xff\xc2", b"\xff\xe0", b"\xff\xd9", b"\xff\xda", b"\xff\xff", b"\x00\x02", b"\x00\x08", b"\x00\x0b",
+                b"\x00\x40", b"\x00\x01", b"\x08\x00\x10\x00\x20\x01", b"\x08", b"\x00", b"\x11\x22\x33", b"\xc0"]
+        for _ in range(6000):
+            dd = b"\xff\xd8" + b"".join(rnd2.choice(toks) for _ in range(rnd2.randint(0, 9)))
+            r = {n: tuple(f(dd)) for n, f in fns.items() if n.endswith("_extractor.py")}
+            if len(set(r.values())) != 1:
+                return {"target": "agree", "inputs": {"file": "random marker soup", "bytes": list(dd)}, "expected": "equal results", "observed": {k: list(v) for k, v in r.items()}}
         for (what, typ, data, size) in files:
             for cut in (len(data), 3, 9, 20, 25, len(data) // 2):
                 dd = data[:cut]
@@ -883,6 +891,8 @@ def search(ob):
         if fmt == "epub":
             return check_resolver("resolve_href") or witness("resolution", "epub")
         return witness("resolution", fmt)
+    if "/agree#" in ob:
+        return check_sniffers("agree")
     if "_get_image_pixel_dimensions" in ob:
         return check_sniffers(mod + ".py") or check_sniffers("agree")
     if "get_jpeg_dimensions" in ob:
